@@ -119,6 +119,43 @@ func init() {
 			} else if nset == 0 {
 				c.Undecided("C23d: no write to the delegations collection found")
 			}
+			// a delegation reaches SetDelegation only from the two functions that hand it either the entry read for
+			// that very (provider, delegator) — whose stored credit is its own history — or a NewDelegation (no
+			// credit): a copy of another pair's entry would carry a foreign credit history into a new pair
+			c.RequireCallers("C23d", dsK+"SetDelegation", dsK+"ChangeDelegationTimestampForTesting", dsK+"increaseDelegation", dsK+"decreaseDelegation", dsK+"InitGenesis", "x/dualstaking.InitGenesis", "x/dualstaking/keeper.Migrator.MigrateVersion5To6", "x/dualstaking/keeper.Migrator.MigrateVersion6To7")
+			for _, fnm := range []string{"increaseDelegation", "decreaseDelegation"} {
+				f := c.P.Fn(dsK + fnm)
+				if f == nil {
+					continue
+				}
+				for _, s := range c.CallsByName(f, false, dsK+"SetDelegation") {
+					a := ir.CallOf(s.Instr).Args
+					src := allocOf(a[len(a)-1])
+					okSrc := src != nil
+					if src != nil && src.Referrers() != nil {
+						for _, r := range *src.Referrers() {
+							st, isSt := r.(*ssa.Store)
+							if !isSt || st.Addr != ssa.Value(src) {
+								continue
+							}
+							for _, leaf := range phiLeaves(st.Val) {
+								d := ir.Desc(leaf)
+								own := strings.HasPrefix(d, "call("+dsK+"GetDelegation)(recv,param#0,param#2,param#1)#0")
+								fresh := strings.HasPrefix(d, "call(x/dualstaking/types.NewDelegation)(param#1,param#2,")
+								if !own && !fresh {
+									okSrc = false
+								}
+							}
+						}
+					}
+					key := "C23d/" + fnm + "/stores-this-pair's-own-entry-or-a-new-one"
+					if okSrc {
+						c.OK(key, c.P.InstrPos(s.Instr), "GetDelegation(provider, delegator) of its own parameters, or NewDelegation")
+					} else {
+						c.Fail(key, c.P.InstrPos(s.Instr), fnm+" stores a delegation that is neither the entry read for its own (provider, delegator) nor a NewDelegation: a foreign credit history can be attached to this pair")
+					}
+				}
+			}
 		}
 
 		c.Rule("C23b weights: each hour count in CalculateCredit is 0 or (later.Unix() − earlier.Unix())/3600 assigned under earlier.Before(later); timestamps are clamped to 30 days before the block time")
